@@ -7,6 +7,7 @@ mkdir -p .work replay evidence
 PYTHONPATH="${VERIF_REPO:-/repo}" /venv/bin/python harness/genparams.py
 PYTHONPATH="${VERIF_REPO:-/repo}" /venv/bin/python harness/pytrans.py
 PYTHONPATH="${VERIF_REPO:-/repo}" /venv/bin/python harness/pytrans2.py
+PYTHONPATH="${VERIF_REPO:-/repo}" /venv/bin/python harness/pytrans3.py
 cd coq
 coq_makefile -f _CoqProject -o Makefile
 timeout 3000 make -j16
